@@ -86,15 +86,24 @@ def _header(chk: Check) -> None:
             return st.targets[0].id
         return None
 
-    def check(label: str, var: Optional[str], const: str) -> None:
+    def check(label: str, var: Optional[str], const: str, read: Optional[ast.Call] = None) -> None:
         passed: Set[int] = set()
         rejecting = False
+
+        def is_value(e: ast.AST) -> bool:
+            # the variable the read was stored in, or the read itself compared in place
+            if var is not None and attr_path(e) == (var,):
+                return True
+            return read is not None and any(x is read for x in ast.walk(e))
         for n, i in cfg.info.items():
             if i.kind != "test" or not isinstance(i.ast, ast.Compare) or len(i.ast.ops) != 1:
                 continue
             t = i.ast
-            names = {attr_path(t.left), attr_path(t.comparators[0])}
-            if names != {(var,), (const,)} or not isinstance(t.ops[0], (ast.NotEq, ast.Eq)):
+            sides = [t.left, t.comparators[0]]
+            if not isinstance(t.ops[0], (ast.NotEq, ast.Eq)):
+                continue
+            if not ((is_value(sides[0]) and attr_path(sides[1]) == (const,)) or
+                    (is_value(sides[1]) and attr_path(sides[0]) == (const,))):
                 continue
             for b in cfg.g.successors(n):
                 bi = cfg.info[b]
@@ -112,8 +121,8 @@ def _header(chk: Check) -> None:
                "by truthiness or by another test)" % (label, const), 4)
     mvar = var_of(reads[0]) if reads else None
     vvar = var_of(reads[3]) if len(reads) > 3 else None
-    check("magic", mvar, "GTIRB_MAGIC_CHARS")
-    check("version", vvar, "PROTOBUF_VERSION")
+    check("magic", mvar, "GTIRB_MAGIC_CHARS", reads[0] if reads else None)
+    check("version", vvar, "PROTOBUF_VERSION", reads[3] if len(reads) > 3 else None)
     if len(reads) > 3:
         # the version is decoded from that single byte
         st = reads[3]
